@@ -24,6 +24,16 @@ type c06faultFS struct {
 	failWrite, failRead int  // call index that fails, -1 never
 	short               bool // the failing Write stores half of its bytes first
 	writes, reads       int
+	failRemove          bool // Remove is refused (a read-only source)
+	removes             int
+}
+
+func (f *c06faultFS) Remove(name string) error {
+	if f.failRemove {
+		f.removes++
+		return &hackpadfs.PathError{Op: "remove", Path: name, Err: errC06Fault}
+	}
+	return f.FS.Remove(name)
 }
 
 func (f *c06faultFS) Open(name string) (hackpadfs.File, error) {
@@ -89,6 +99,7 @@ func c06faultCases() []c06faultCase {
 						cs = append(cs, c06faultCase{src, dst, ex, side, at})
 					}
 				}
+				cs = append(cs, c06faultCase{src, dst, ex, "remove-source", 0})
 			}
 		}
 	}
@@ -108,6 +119,8 @@ func c06crossfault(env *core.Env, cs c06case, idx int, res *core.CaseResult) {
 		dstFS.failWrite = fc.At
 	case "short-write":
 		dstFS.failWrite, dstFS.short = fc.At, true
+	case "remove-source":
+		srcFS.failRemove = true // the copy succeeds, then the source cannot be removed
 	default:
 		srcFS.failRead = fc.At
 	}
@@ -147,7 +160,7 @@ func c06crossfault(env *core.Env, cs c06case, idx int, res *core.CaseResult) {
 	st := fsx.Step{K: "Rename", P: "a/" + fc.Src, P2: "b/" + fc.Dst}
 	var hs fsx.Handles
 	r := fsx.Exec(m, st, &hs, nil)
-	fired := dstFS.writes > dstFS.failWrite && dstFS.failWrite >= 0 || srcFS.reads > srcFS.failRead && srcFS.failRead >= 0
+	fired := dstFS.writes > dstFS.failWrite && dstFS.failWrite >= 0 || srcFS.reads > srcFS.failRead && srcFS.failRead >= 0 || srcFS.removes > 0
 	res.Count("crossfault_cases", 1)
 	dk := "dst=missing"
 	if fc.DstExists {
@@ -176,6 +189,9 @@ func c06crossfault(env *core.Env, cs c06case, idx int, res *core.CaseResult) {
 		after, _ := fsx.Snapshot(parts[k], nil)
 		if kind, detail := fsx.Diff(after, before[k]); kind != "" {
 			what := "failed-but-changed:" + strings.Fields(k)[0] + ":" + kind
+			if fc.Side == "remove-source" && fc.DstExists && strings.HasPrefix(k, "destination") {
+				what = "failed-but-changed:destination:replaced" // one situation (F70): which attribute of the replaced file differs first does not matter
+			}
 			res.Violate(sig(what), fmt.Sprintf("%s failed (%s) after a %s fault at call %d, but the %s is not what it was before: %s", st, r, fc.Side, fc.At, k, detail), wit)
 			return
 		}
